@@ -41,3 +41,8 @@ func (c *Channel) VerifDetachTimers() {
 
 func (c *Channel) VerifOnRekey()     { c.onRekey() }
 func (c *Channel) VerifOnHandshake() { c.onHandshake() }
+
+// VerifConstants returns the protocol constants the verification models depend on.
+func VerifConstants() (nonceInitHello_, nonceRespHello_, nonceInitDone_, nonceRespDone_, noncePostHandshake_ uint32, purposeCB, purposeTS string) {
+	return nonceInitHello, nonceRespHello, nonceInitDone, nonceRespDone, noncePostHandshake, purposeChannelBinding, purposeTimestamp
+}
